@@ -11,7 +11,9 @@ import (
 )
 
 func init() {
-	register("C03", ruleC03Partition, ruleC03GroupOrder, ruleC03MemoKey, ruleC03FilteredFlow, ruleC03AggSiblings, ruleC03Having)
+	register("C03", ruleC03Partition, ruleC03GroupOrder, ruleC03MemoKey, ruleC03FilteredFlow, ruleC03AggSiblings, ruleC03Having,
+		// every aggregate call is computed from its own argument: the memo is never shared between queries (shared with C07)
+		ruleC07OwnState)
 }
 
 // registered resolves the function value registered under an SQL function name by the module's
